@@ -177,7 +177,17 @@ func c01Program(run *common.Run, prog int, engine string, idx int) {
 	fail := func(what string) {
 		run.Violation("prog", idx, what, map[string]any{"engine": engine, "steps": steps})
 	}
+	// every second program is interleaved with unrelated requests for a second, wide table of the same server
+	var nz *noise
+	nzr := run.Rand("C01.noise", prog)
+	if prog%2 == 1 {
+		nz = newNoise(srv)
+		run.Count("programs_interleaved_with_traffic_for_another_table", 1)
+	}
 	for s := 0; s < nsteps; s++ {
+		if nz != nil && nzr.Chance(1, 2) {
+			nz.send(nzr, srv)
+		}
 		// move the injected clock: forwards, backwards, to non-millisecond values
 		switch r.Intn(6) {
 		case 0:
